@@ -88,6 +88,11 @@ def handler : Handler S where
       | some sg, some name, some r, some p, some e =>
         ({ s with cfg := { s.cfg with pipes := s.cfg.pipes ++ [{ id := { sig := sg, name := name }, recv := r, procs := p, exps := e }] } }, [])
       | _, _, _, _, _ => (s, ["obs bad-op"])
+    | ["validate"] =>
+      let cls (e : ValErr) : String := match e with
+        | .noReceivers => "receivers" | .noExporters => "exporters" | .dupProcessor => "dupproc"
+      let errs := sortStr ((validate s.cfg).map cls)
+      (s, [if errs.isEmpty then "obs validate ok" else "obs validate err=" ++ ",".intercalate errs])
     | ["build"] =>
       let b := build s.cfg
       let s := { s with built := some b, es := some (edges s.cfg) }
